@@ -1,11 +1,12 @@
 From Coq Require Import NArith List Bool.
 Import ListNotations.
 From SK Require Import model.C14_Model proof.C14_Proof proof.C14_Batch proof.C14_Cluster model.C14_CrnModel proof.C14_Crn
-  model.C14_WorkersModel proof.C14_Workers model.C14_BenchModel proof.C14_Bench model.C14_InputsModel proof.C14_Inputs.
+  model.C14_WorkersModel proof.C14_Workers model.C14_BenchModel proof.C14_Bench model.C14_InputsModel proof.C14_Inputs model.C14_PoolModel proof.C14_Pool.
 Local Open Scope N_scope.
 
 (** Pinned key discipline (the repaired code): for EVERY allocator and collector behaviour (every legal
-    trace: any address-reuse history, any collection schedule), every cache size and cache on/off, each
+    trace: any address-reuse history, any collection schedule), every cache size (the code needs cache_maxsize >= 1: with 0 the
+    eviction line raises StopIteration; the model's [tl] of an empty list is harmless) and cache on/off, each
     application returns execute(content of the substrate object, content of the rule object, inv). *)
 Theorem C14_cache_transparent :
   forall (R : Type) (execute : N -> N -> bool -> R) (cache_on : bool) (cmax : nat)
@@ -95,7 +96,8 @@ Theorem C14_cluster_batches_templates :
 Proof. exact cluster_batches_templates. Qed.
 Print Assumptions C14_cluster_batches_templates.
 
-(** Parallel versus serial network expansion (SynCRN.build; model coq/model/C14_CrnModel.v, evaluated by the
+(** (Instance at the pool [par_map] of [C14_crn_pool_contract] below, where the pool's contract is an explicit premise.)
+    Parallel versus serial network expansion (SynCRN.build; model coq/model/C14_CrnModel.v, evaluated by the
     correspondence for the serial run and for max_workers 1, 2, 3).  For every rule list (arities, contents),
     configuration, execution table, seed list and worker count the parallel build produces exactly the serial
     build: same species and event nodes with the same node ids, steps, rule indices, rule contents, application
@@ -130,7 +132,8 @@ Theorem C14_crn_builds_parallel_equals_serial :
 Proof. exact main_crn_builds_parallel_equals_serial. Qed.
 Print Assumptions C14_crn_builds_parallel_equals_serial.
 
-(** Parallel versus serial validation: for every per-row check, every table and every worker count, validate_smiles' per-row
+(** (Instances at the pool [par_map] of [C14_rows_pool_contract] below, where the pool's contract is an explicit premise.)
+    Parallel versus serial validation: for every per-row check, every table and every worker count, validate_smiles' per-row
     results are, row by row and in order, the single-row results, and results / success count / row count equal those of the
     serial run (joblib.Parallel modelled as an order-preserving chunked map — its contract; worker counts compared at run time). *)
 Theorem C14_validate_workers :
@@ -245,3 +248,46 @@ Theorem C14_balance_input :
   (filter check (parse_input items), filter (fun r => negb (check r)) (parse_input items)).
 Proof. exact @balance_input. Qed.
 Print Assumptions C14_balance_input.
+
+(** THE POOL'S CONTRACT AS AN EXPLICIT PREMISE (model coq/model/C14_PoolModel.v: the functions of C14_CrnModel.v with the pool primitive
+    — executor.map / joblib.Parallel — as a parameter [pm]).  [pool_contract pm]: for every chunk size, function and list, pm returns
+    map f l (one result per item, in submission order).  Process pools are NOT verified to satisfy it (tested at run time for worker
+    counts 1..8); everything else follows from it alone:
+    network expansion — every state reached by successive build calls and the task counts — is the same for every pool satisfying the
+    contract, parallel or not, any worker count. *)
+Theorem C14_crn_pool_contract :
+  forall (pm : pool_map), pool_contract pm ->
+  forall (c : crn_cfg) (parallel : bool) (workers : nat) (t : exec_table) (calls : list (list (option N))) (st0 : crn_state),
+  builds_from_with pm c parallel workers t st0 calls = builds_from_with pm c false 0%nat t st0 calls.
+Proof. intros pm H c parallel workers t calls st0. exact (builds_with_parallel_equals_serial pm H c parallel workers t calls st0). Qed.
+Print Assumptions C14_crn_pool_contract.
+
+(** validation and balance checking under the contract alone *)
+Theorem C14_rows_pool_contract :
+  forall (pm : pool_map), pool_contract pm ->
+  forall (A : Type) (n_jobs : nat) (check : A -> bool) (rows : list A),
+  validate_column_with pm n_jobs check rows = validate_column_with pm 1%nat check rows /\
+  fst (validate_column_with pm n_jobs check rows) = map check rows /\
+  balance_split_with pm n_jobs check rows = (filter check rows, filter (fun r => negb (check r)) rows).
+Proof.
+  intros pm H A n_jobs check rows. destruct (validate_with_workers pm H n_jobs check rows) as [H1 H2].
+  split; [exact H1|split; [exact H2|exact (balance_with_workers pm H n_jobs check rows)]].
+Qed.
+Print Assumptions C14_rows_pool_contract.
+
+(** the pool of the executable model satisfies the contract, and the parametrised functions at that pool ARE the functions the
+    correspondence evaluates (so the two theorems above specialise to [C14_crn_builds_parallel_equals_serial], [C14_validate_workers],
+    [C14_balance_workers]) *)
+Theorem C14_par_map_is_a_pool :
+  pool_contract (@par_map) /\
+  (forall c parallel workers t calls st0,
+     builds_from_with (@par_map) c parallel workers t st0 calls = builds_from c parallel workers t st0 calls) /\
+  (forall (A : Type) n_jobs (check : A -> bool) rows,
+     validate_column_with (@par_map) n_jobs check rows = validate_column n_jobs check rows /\
+     balance_split_with (@par_map) n_jobs check rows = balance_split n_jobs check rows).
+Proof.
+  split; [exact par_map_contract|split].
+  - intros. apply builds_from_instance.
+  - intros. apply rows_instances.
+Qed.
+Print Assumptions C14_par_map_is_a_pool.
